@@ -71,13 +71,23 @@ func nativeReplay(path string) (bool, string) {
 	if err != nil {
 		return false, err.Error()
 	}
-	if len(rf.Sched) > 0 && rf.Kind != "race" {
+	sched := len(rf.Sched) > 0 && rf.Kind != "race"
+	// harnesses that ask verifHeldLocks() get lock-counting copies, so that the answer means something natively
+	locks := false
+	if rf.Kind != "race" {
+		for _, f := range fl {
+			if b, err := os.ReadFile(f); err == nil && strings.Contains(string(b), "func "+rf.Harness+"(") && strings.Contains(string(b), "verifHeldLocks()") {
+				locks = true
+			}
+		}
+	}
+	if sched || locks {
 		// thread harness: instrumented copies of the package's files follow the recorded schedule natively
 		prog, err := exec.Load(repoDir, rf.PkgRel, ov)
 		if err != nil {
 			return false, "load for instrumentation failed: " + err.Error()
 		}
-		inst, err := instrumentForSchedule(prog)
+		inst, err := instrumentForSchedule(prog, sched, locks)
 		if err != nil {
 			return false, "instrumentation failed: " + err.Error()
 		}
